@@ -30,18 +30,30 @@ def _coverage(rs):
         "type_names_compared": _sum(rs, "type_names_compared") + _sum(rs, "attr_type_names_compared"),
         "defaults_compared": _sum(rs, "element_text_compared") + _sum(rs, "attribute_lists_compared"),
         "parses": _sum(rs, "parses"),
+        # violations that match a diagnosed library defect (field "defect", see docs/c08.md) and the remainder
+        "violations_by_diagnosed_defect": _by_defect(rs),
+        "violations_not_matching_a_diagnosed_defect": _sum(rs, "violations") - sum(_by_defect(rs).values()),
     }
 
 
+def _by_defect(rs):
+    out = {}
+    for r in rs:
+        for k, v in r.get("counters", {}).items():
+            if k.startswith("tagged:"):
+                out[k[7:]] = out.get(k[7:], 0) + v
+    return out
+
+
 def _particles(tier, full, length, wordcap, alldeep, deadline=None):
-    args = ["--space", "particles", "--tier", tier, "--full", full, "--len", length, "--wordcap", wordcap, "--alldeepmax", alldeep]
+    args = ["--space", "particles", "--tier", tier, "--full", full, "--len", length, "--wordcap", wordcap, "--alldeepmax", alldeep, "--case-timeout", 120]
     if deadline:
         args += ["--deadline", deadline]
     return dict(name="particles-" + tier, driver="c08_schema", args=args)
 
 
 def _batch(space, tier):
-    return dict(name=space + "-" + tier, driver="c08_schema", args=["--space", space, "--tier", tier])
+    return dict(name=space + "-" + tier, driver="c08_schema", args=["--space", space, "--tier", tier, "--case-timeout", 120])
 
 
 SPEC = dict(
@@ -78,7 +90,7 @@ SPEC = dict(
     runs=dict(
         quick=[_particles("quick", 3, 5, 1000, 250), _batch("attrs", "quick"), _batch("content", "quick"), _batch("types", "quick"),
                _batch("wild", "quick"), _batch("assembly", "quick")],
-        thorough=[_particles("thorough", 4, 6, 4000, 600, deadline=1250), _batch("attrs", "thorough"), _batch("content", "thorough"), _batch("types", "thorough"),
+        thorough=[_particles("thorough", 4, 6, 3000, 500, deadline=1250), _batch("attrs", "thorough"), _batch("content", "thorough"), _batch("types", "thorough"),
                   _batch("wild", "thorough"), _batch("assembly", "thorough")],
     ),
     manifest=dict(
